@@ -285,12 +285,21 @@ def run(facts, tier):
     if lz is None:
         l3.missing_anchor("filter::lazy")
     else:
-        from hirtab import callees
-        cl = callees(lz["body"])
-        ok = any(c.endswith("iter::sources::once_with::once_with") or c.endswith("::once_with") for c in cl) and any(c.endswith("Iterator::flatten") for c in cl)
-        l3.examined("lazy", True, {"lazy_is_once_with_flatten": ok})
+        # deferral by what the wrapper does, not by which adapters it uses: it never calls its closure parameter itself (MIR: no
+        # `FnOnce::call_once`/`FnMut::call_mut`/`Fn::call` on something derived from the parameter) and hands it to a source that
+        # calls it on the first `next` (`once_with`, `from_fn`, `LazyCell`-like), i.e. the parameter flows into another call
+        lm = facts.mir_fn("jaq_core::filter::lazy")
+        ok = False
+        if lm is not None:
+            from mirutil import Body as _Body
+            lb = _Body(lm)
+            der = lb.derived_from([1])
+            calls_it = [i for i, t in lb.calls() if re.search(r"core::ops::function::(FnOnce::call_once|FnMut::call_mut|Fn::call)$", t.get("fn") or "") and set(lb.arg_locals(i, 0)) & der]
+            handed_on = [i for i, t in lb.calls() if i not in calls_it and set(lb.arg_locals(i)) & der]
+            ok = not calls_it and bool(handed_on)
+        l3.examined("lazy", True, {"lazy_calls_its_closure_itself": not ok})
         if not ok:
-            l3.violate("lazy", "`lazy` no longer defers the construction of its iterator (once_with + flatten)", where=lz["sp"])
+            l3.violate("lazy", "`lazy` no longer defers the construction of its iterator: it calls its closure parameter itself (or drops it) instead of handing it to a source that calls it on the first `next`", where=lz["sp"])
     rules.append(l3.finish())
 
     # ---------------- L3.6 the shared input stream hides its size
